@@ -261,4 +261,35 @@ theorem goLoop_sim (h : LaneHandler) (hu : LaneUniform h) (ops : Ops) (exec vcc0
       simp only [he', Bool.not_false, ↓reduceIte, Bool.false_eq_true]
       exact ⟨ih.vgpr, ih.cin, ih.mem, ih.log, fun l hl => ih.rest l (by omega), ih.mout⟩
 
+/-- the lane-local body does not look at the src2 operand when src2 is the mask source -/
+theorem seqLoop_src2_irrel (h : LaneHandler) (ops : Ops) (m' : BitVec 64) (e : Nat → Bool) (n : Nat) (s0 : VState) :
+    seqLoop h.toHandler { ops with src2 := (match h.msrc with | .src2 => .uni m' | _ => ops.src2) } e n s0
+      = seqLoop h.toHandler ops e n s0 := by
+  have : h.toHandler.f { ops with src2 := (match h.msrc with | .src2 => .uni m' | _ => ops.src2) } = h.toHandler.f ops := by
+    funext a
+    simp only [LaneHandler.toHandler, LaneHandler.bodyIn]
+    cases hk : h.msrc <;> simp
+  induction n with
+  | zero => rfl
+  | succ n ih => simp only [seqLoop, ih, stepLane, laneOut, this]
+
+
+/-- the abstract state a translated handler runs on: the VGPR file, bit `l` of the mask source value,
+    bit `l` of the register the accumulator starts from -/
+def absState (vgpr : Nat → Nat → Nat) (m vcc0 : BitVec 64) : VState :=
+  { vgpr := vgpr, cin := fun l => m.getLsbD l, mout := fun l => vcc0.getLsbD l, mem := fun _ => 0, log := [] }
+
+/-- `m` is the 64-bit value the handler uses as lane-mask source -/
+def IsMaskSource (h : LaneHandler) (ops : Ops) (vcc0 m : BitVec 64) : Prop :=
+  (h.msrc = .vcc → m = vcc0) ∧ (h.msrc = .src2 → ops.src2 = .uni m)
+
+theorem maskTie_of_tags (h : LaneHandler) (ops : Ops) (vgpr : Nat → Nat → Nat) (vcc0 m : BitVec 64)
+    (hv : h.msrc = .vcc → m = vcc0) (h2s : h.msrc = .src2 → ops.src2 = .uni m)
+    (t1 : h.msrc = .src2 → h.accInit ≠ .vcc) (t2 : h.msrc = .acc → h.accInit = .vcc) :
+    MaskTie h ops vcc0 (absState vgpr m vcc0) := by
+  refine ⟨?_, ?_, t2, ?_⟩
+  · intro hv' l _; simp [absState, hv hv']
+  · intro h2; exact ⟨t1 h2, m, h2s h2, fun l _ => rfl⟩
+  · intro _ l; rfl
+
 end C06
